@@ -6,7 +6,15 @@ from harness import enc
 
 PROP = "C13"
 # the binary64 theorems (Properties/C13.v, module Binary64) use the standard library's real numbers
-AXIOM_WHITELIST = ["sig_not_dec", "sig_forall_dec", "functional_extensionality_dep", "classic"]
+AXIOM_WHITELIST = ["sig_not_dec", "sig_forall_dec", "functional_extensionality_dep", "classic",
+                   # kernel primitives (binary64 floats, 63-bit integers) and their specification axioms, declared by the
+                   # standard library (Coq.Floats.PrimFloat / FloatAxioms, Coq.Numbers.Cyclic.Int63): used by the link theorem
+                   "Prim2SF_SF2Prim", "Prim2SF_valid", "SF2Prim_Prim2SF", "PrimFloat.eqb", "PrimFloat.float", "eqb", "float",
+                   "PrimInt63.add", "PrimInt63.eqb", "PrimInt63.int", "PrimInt63.land", "PrimInt63.leb", "PrimInt63.lor",
+                   "PrimInt63.lsl", "PrimInt63.lsr", "PrimInt63.ltb", "PrimInt63.sub", "Uint63.add_spec", "Uint63.eqb_correct",
+                   "Uint63.eqb_refl", "Uint63.leb_spec", "Uint63.lor_spec", "Uint63.lsl_spec", "Uint63.lsr_spec", "Uint63.ltb_spec",
+                   "Uint63.of_to_Z", "Uint63.sub_spec", "abs", "add", "add_spec", "div", "div_spec", "frshiftexp", "ldshiftexp",
+                   "ltb", "mul", "mul_spec", "normfr_mantissa", "of_uint63", "of_uint63_spec", "opp", "opp_spec"]
 TRUSTED = ["C13_binary64_within_half_unit / C13_rounded_arithmetic_within_half_unit: Coq standard-library axioms of the real numbers "
            "(ClassicalDedekindReals.sig_not_dec, sig_forall_dec), FunctionalExtensionality.functional_extensionality_dep and "
            "Classical_Prop.classic, through Reals and Flocq 4; IEEE-754 binary64 arithmetic modelled by Flocq's round on the reals"]
